@@ -19,6 +19,9 @@ import collections
 VERIF = os.path.dirname(os.path.dirname(os.path.abspath(__file__)))
 
 META = {
+    'F27': 'lazy (on-demand) connection encoders and the assigning/partitioning pattern encoders declare design variables of which '
+           'only one value is ever used (they do not enumerate the matrices), e.g. LazyDirectMatrixEncoder on src=[1], tgt=[1]: '
+           'one variable with 2 options, only value 1 decodes to the single valid matrix',
     'F8': 'complete encoder, option node shared between selection choices: architectures missing from enumeration/decoding, '
           'or a conditionally active choice that shares an option is reported active/wired inconsistently '
           '(e.g. start s0; C0: s0->[n1,n2]; C1: n1->[n3,n2]; n1 incompatible n2: architecture {s0,n2} is never decoded)',
@@ -57,6 +60,8 @@ def exc_of(v):
 
 def classify(prop, v):
     case = v.get('case') or {}
+    if prop == 'C10' and v.get('kind') == 'variable-with-less-than-two-used-values':
+        return 'F27'
     spec = case.get('spec') if isinstance(case, dict) else None
     enc = case.get('enc') if isinstance(case, dict) else None
     if spec is None:
